@@ -339,6 +339,10 @@ pub struct Case17 {
     /// call `with_chunk_size` before (false) or after (true) the level calls
     #[serde(default)]
     pub chunk_last: bool,
+    /// how the payload is handed to the writer: 0 write_all, 1 loop over write, 2 loop over
+    /// write_vectored with two slices split at `payload_len * 3 / 4`
+    #[serde(default)]
+    pub write_mode: u8,
 }
 
 struct Built {
@@ -376,7 +380,32 @@ fn build17(c: &Case17, as_parts: bool, payload: &[u8]) -> Result<Built, String> 
         let head = RespHead::of(&resp);
         let has_writer = w.is_some();
         if let Some(mut w) = w {
-            let _ = w.write_all(payload);
+            match c.write_mode {
+                1 => {
+                    let mut rest = payload;
+                    while !rest.is_empty() {
+                        match w.write(rest) {
+                            Ok(0) | Err(_) => break,
+                            Ok(k) => rest = &rest[k.min(rest.len())..],
+                        }
+                    }
+                }
+                2 => {
+                    // advance by the returned count, as std's write_all_vectored does
+                    let mut done = 0usize;
+                    while done < payload.len() {
+                        let rest = &payload[done..];
+                        let cut = (rest.len() * 3 / 4).max(1).min(rest.len());
+                        match w.write_vectored(&[std::io::IoSlice::new(&rest[..cut]), std::io::IoSlice::new(&rest[cut..])]) {
+                            Ok(0) | Err(_) => break,
+                            Ok(k) => done += k.min(rest.len()),
+                        }
+                    }
+                }
+                _ => {
+                    let _ = w.write_all(payload);
+                }
+            }
         }
         let t = drain(resp.into_body(), DrainOpts { extra_polls: 0, ..Default::default() });
         Built {
@@ -491,19 +520,21 @@ fn c17_strategy() -> BoxedStrategy<Case17> {
         proptest::sample::select(&[1usize, 16, 4096][..]),
         proptest::sample::select(&["GET", "HEAD", "POST"][..]),
         crate::props::stream::payload_strategy(),
-        prop_oneof![3 => 0u32..40, 2 => 40u32..3000],
+        prop_oneof![30 => 0u32..40, 20 => 40u32..3000, 1 => 60_000u32..260_000],
         prop_oneof![3 => Just(vec![]), 2 => vec(0u32..=9, 1..=2)],
         any::<bool>(),
+        0u8..3,
     )
-        .prop_map(|(accept_encoding, level, chunk, method, payload, payload_len, earlier_levels, chunk_last)| Case17 {
+        .prop_map(|(accept_encoding, level, chunk, method, payload, payload_len, earlier_levels, chunk_last, write_mode)| Case17 {
             accept_encoding,
             level,
-            chunk,
+            chunk: if payload_len > 10_000 && chunk < 4096 { 4096 } else { chunk },
             method: method.to_string(),
             payload,
             payload_len,
             earlier_levels,
             chunk_last,
+            write_mode,
         })
         .boxed()
 }
@@ -527,6 +558,7 @@ pub fn run_c17(cx: &Cx) -> Acc {
                         payload_len: 700,
                         earlier_levels: vec![],
                         chunk_last: false,
+                        write_mode: (level as u8 + chunk as u8) % 3,
                     };
                     acc.run_case(cx, "enumerated", &c, |acc| check_c17(&c, acc));
                     // the level set last wins: every earlier level, both call orders
@@ -542,6 +574,22 @@ pub fn run_c17(cx: &Cx) -> Acc {
     }));
     let n = cx.tier.pick(1u64, 15u64);
     acc.merge(par_proptest(cx, "random", 100_000 * n, c17_strategy, |c, acc| check_c17(c, acc)));
+    // Large incompressible payloads through every write method, gzip preferred, every level.
+    let big: Vec<(u32, u8)> = (0..=9u32).flat_map(|l| (0..3u8).map(move |m| (l, m))).collect();
+    acc.merge(par_units(cx, "large-payloads", &big, true, "200 000 incompressible bytes, Accept-Encoding: gzip, level 0..=9 x {write_all, write loop, write_vectored loop}", |cx, &(level, write_mode), acc| {
+        let c = Case17 {
+            accept_encoding: Some(Bs::s("gzip")),
+            level,
+            chunk: 4096,
+            method: "GET".into(),
+            payload: crate::props::stream::Payload::Hash,
+            payload_len: 200_000,
+            earlier_levels: vec![],
+            chunk_last: false,
+            write_mode,
+        };
+        acc.run_case(cx, "large-payloads", &c, |acc| check_c17(&c, acc));
+    }));
     acc
 }
 
